@@ -170,6 +170,15 @@ def coverage_world(seed, kinds, annotated=False):
             for k in range(4):
                 r = w.make_read("chr1", list(a_), truth={"cluster": len(clusters), "kind": kind})
                 names.append(r.name)
+            # alignments with MAPQ 3 (below the cut-off that applies to INCONSISTENT alignments only): consistent with two isoforms
+            # (ambiguous), and consistent with one (unique)
+            for k in range(4):
+                r = w.make_read("chr1", [(a_[0][0] + 20 + 3 * k, a_[0][1]), (a_[1][0], a_[1][1] - 15)], mapq=3,
+                                truth={"cluster": len(clusters), "kind": kind, "class": "low-mapq-consistent-with-two-isoforms"})
+                names.append(r.name)
+                r = w.make_read("chr1", [(a_[0][0] + 10 + 3 * k, a_[0][1]), a_[1], a_[2], (a_[3][0], a_[3][1] - 12)], mapq=3,
+                                truth={"cluster": len(clusters), "kind": kind, "class": "low-mapq-consistent-with-one-isoform"})
+                names.append(r.name)
             for k in range(3):
                 up = [(base - 3000 + 10 * k, base - 2700), (base - 2000, base - 1800), (base - 900, a_[0][1]), a_[1]]
                 down = [a_[2], (a_[3][0], a_[3][1] + 900), (a_[3][1] + 1800, a_[3][1] + 2000), (a_[3][1] + 2700, a_[3][1] + 3000 - 10 * k)]
